@@ -252,19 +252,3 @@ def compare(case, impl, model):
     if spec != "-" and res != spec:
         return "implementation (%s) agrees with the model but violates the specification" % prof
     return None
-
-
-def finding_key(case, impl, model):
-    """`merkle-leaf-index-wrap`: MerkleTree::leaf / indexed_leafs (and inclusion_proof_for_leaf_indices through it)
-    called with an index i such that first_leaf + i wraps past 2^64; the model predicts the behaviour (inner node in
-    release, panic in checked), the specification demands None / Err."""
-    s = split(impl, model)
-    if s is None:
-        return None
-    prof, res, mod, spec = s
-    f = case.split()
-    if f[0] in ("leaf", "ileafs", "proof", "honest") and res == mod and spec != "-" and res != spec:
-        n = int(f[1])
-        if any(int(i) + n >= U for i in f[3:]):
-            return "merkle-leaf-index-wrap"
-    return None
